@@ -21,3 +21,9 @@ prop("C04",
      per_op_timeout="60s",
      rule="alpha-beta over the option lattice on live positions (stale-hint stress on reused engines, tiny tables, low reserves), opening book positions and all their symmetric images, Monte-Carlo player with both policies and corner forcing (limits >= 100 ms); every answer / PV head checked against the legal set of the model; distinct op lines",
      assumptions=["Monte-Carlo behaviour inside real time limits and sort.Sort order are oracles in the theorems and sampled in the tie"])
+
+# generators added by the coordinator on top of the owners' entries
+PROPS["C02"]["generators"] = ["C02", "FN"]
+PROPS["C08"]["generators"] = ["C08", "FN", "CENSUS"]
+for _k in ("C13tei", "C04mcts", "C13tps", "C13ptn", "C04ab", "C04book"):
+    PROPS.pop(_k, None)   # temporary per-part entries of the work packages
